@@ -286,6 +286,58 @@ def run(rep, ctx):
              "the value is tested before the derivative arrays (value errors override derivative errors)")
 
     # ---- per registered function --------------------------------------------------------
+    # the integer-argument helpers accept exactly the doubles that the integer type represents (evaluated on samples; a cast of a
+    # value outside the target type is undefined in C - it is modelled as "some other number", so a round-trip test rejects it)
+    import math as _math
+    from ..cfg import MiniInt as _MI
+    for hname, lo_, hi_ in (("check_int_arg", -2147483648.0, 2147483647.0), ("check_uint_arg", 0.0, 4294967295.0)):
+        h = byname.get(hname)
+        if h is None:
+            raise AnalysisBroken("C16.P0: %s not found" % hname)
+        bad = []
+        for v_ in (-2147483649.0, -2147483648.0, -3.0, -1.0, -0.5, 0.0, 0.5, 7.0, 2147483647.0, 2147483648.0, 4294967295.0, 4294967296.0, 4294967299.0,
+                   1e300, float("inf"), float("-inf"), float("nan")):
+            errs, box = [], {}
+
+            def atom(t_, n_, env_, v_=v_):
+                k_ = n_["k"]
+                if k_ == "ArraySubscriptExpr" and render(kids(n_)[0]).replace(" ", "").endswith("al->ra"):
+                    return v_
+                if k_ == "MemberExpr" and n_.get("name") == "derivs":
+                    return 0
+                if k_ in ("CStyleCastExpr", "CXXStaticCastExpr") and (n_.get("ct") or n_.get("t") or "") in ("int", "unsigned int", "unsigned"):
+                    x_ = box["mi"].expr(kids(n_)[0], env_, 0)
+                    lo2, hi2 = (-2147483648.0, 2147483647.0) if (n_.get("ct") or n_.get("t")) == "int" else (0.0, 4294967295.0)
+                    if isinstance(x_, float) and (x_ != x_ or x_ in (float("inf"), float("-inf")) or not (lo2 - 1 < x_ < hi2 + 1)):
+                        return 123456.0 if x_ != 123456.0 else 654321.0          # undefined conversion: some other number
+                    return float(_math.trunc(x_))
+                if k_ == "CallExpr":
+                    cn_ = (n_.get("callee") or "").split("::")[-1]
+                    if cn_ in ("error", "eval_error", "format_eval_error"):
+                        errs.append(1)
+                        return 0
+                    if cn_ == "check_const_arg":
+                        return 1
+                    if cn_ in ("floor", "ceil", "trunc", "round", "rint", "fabs") and len(call_args(n_)) == 1:
+                        x_ = box["mi"].expr(call_args(n_)[0], env_, 0)
+                        if isinstance(x_, float) and (x_ != x_ or x_ in (float("inf"), float("-inf"))):
+                            return abs(x_) if cn_ == "fabs" else x_
+                        return float({"floor": _math.floor, "ceil": _math.ceil, "trunc": _math.trunc, "round": round, "rint": round, "fabs": abs}[cn_](x_))
+                    if cn_ in ("gsl_isnan", "isnan") and len(call_args(n_)) == 1:
+                        x_ = box["mi"].expr(call_args(n_)[0], env_, 0)
+                        return int(x_ != x_)
+                return None
+            mi = _MI(F, atom)
+            box["mi"] = mi
+            try:
+                ret_ = mi.call(h, [("obj", None, None), 0, ("obj", None, None)])
+            except AnalysisBroken as e_:
+                raise AnalysisBroken("C16.P0: %s: %s" % (hname, e_))
+            repres = v_ == v_ and v_ not in (float("inf"), float("-inf")) and lo_ <= v_ <= hi_ and float(_math.trunc(v_)) == v_
+            if bool(ret_) != repres or (not repres and not errs):
+                bad.append((v_, ret_, bool(errs)))
+        p0.check(not bad, "%s|exactly-representable" % hname, short_loc(h.loc), "%s accepts exactly the doubles its integer type represents (17 samples incl. the type's limits, inf, NaN)" % hname,
+                 "%s: (argument, returned, error set) = %s - the GSL function is then called with a converted count that is not the argument" % (hname, bad[:3]))
     r1 = rep.rule("C16.R1", "RANGE",
                   "subscripts of al->ra/derivs/dig are constants < registered arity; Hessian subscripts "
                   "< arity(arity+1)/2; loops over the argument vector are bounded by al->n", floor=330)
